@@ -939,6 +939,8 @@ def tolerance_case(ctx, k):
     rng = ctx.rng()
     if k % 4 == 3:
         files = sorted(glob.glob(os.path.join(REPO, G.DOCS_MESHES, "*")))
+        if not files:       # RV_REPO points at a bare copy of the package (self-test)
+            raise Skip("no docs meshes under RV_REPO")
         f = files[(k // 4) % len(files)]
         try:
             m = skfem.io.json.from_file(f) if f.endswith(".json") else skfem.Mesh.load(f)
